@@ -4,6 +4,7 @@ import (
 	"go/ast"
 	"go/token"
 	"go/types"
+	"strings"
 
 	"golang.org/x/tools/go/cfg"
 )
@@ -356,6 +357,8 @@ func checkGenericErrorDiscipline(c *Ctx, pkgs ...string) {
 	checkBuilderArgumentRoles(c, "plumbing.argument-roles", pkgs...)
 	checkEffectDominance(c, "effects.dominance", pkgs...)
 	checkReceivedErrorsSurface(c, "errors-surface.received-errors", pkgs...)
+	checkPresenceTests(c, "errors-surface.presence-tests", pkgs...)
+	checkAccumulatorsFed(c, "plumbing.accumulators-fed", pkgs...)
 	if n1 == 0 || n2 == 0 {
 		c.fail("errors-surface.error-branch-fails", "instances", "-", "the generic error rules matched no site in "+joinStrings(pkgs))
 	}
@@ -556,6 +559,270 @@ func checkReceivedErrorsSurface(c *Ctx, rule string, pkgs ...string) int {
 				c.check(surfaced, rule, f.ID+":recv:"+v.Name()+"#"+itoa(n), p.Pos(as.Pos()),
 					"a received error reaches a return, an outer variable, a send or a non-logging call",
 					"`"+v.Name()+"`, an error received from a channel in "+f.ID+", is only logged or tested: the variable is local to the clause, so the failure a worker reported is lost and the operation goes on to report success")
+				return true
+			})
+		}
+	}
+	return n
+}
+
+// checkPresenceTests (generic, contradiction rule): the boolean answer of a presence query (`has, err := store.Has(k)`,
+// `exists, err := x.Exists(…)`) and the sentinel returned on it must agree: a not-found / not-exists sentinel is returned
+// where the answer is false, an already-exists sentinel where it is true. Also: the value of a comma-ok type assertion
+// is not used on the path where ok is false (it is the zero value: a nil interface), and a positive `ok` does not lead
+// straight to a failure that ignores the value.
+func checkPresenceTests(c *Ctx, rule string, pkgs ...string) int {
+	p := c.P
+	n := 0
+	classify := func(info *types.Info, e ast.Expr) int { // -1 absence sentinel, +1 presence sentinel, 0 unknown
+		name := ""
+		ast.Inspect(e, func(m ast.Node) bool {
+			if id, ok := m.(*ast.Ident); ok {
+				if v, ok := info.Uses[id].(*types.Var); ok && v.Pkg() != nil && v.Parent() == v.Pkg().Scope() && strings.HasPrefix(v.Name(), "Err") && name == "" {
+					name = v.Name()
+				}
+			}
+			return true
+		})
+		switch {
+		case name == "":
+			return 0
+		case strings.Contains(name, "NotFound"), strings.Contains(name, "NotExist"), strings.Contains(name, "Missing"):
+			return -1
+		case strings.Contains(name, "Exists"), strings.Contains(name, "Already"):
+			return +1
+		}
+		return 0
+	}
+	for _, pk := range pkgs {
+		for _, f := range p.FuncsIn(pk) {
+			if f.Decl.Body == nil {
+				continue
+			}
+			info := f.Info()
+			b := p.BodyOf(f)
+			// presence variables
+			presence := map[*types.Var]*ast.CallExpr{}
+			assertOK := map[*types.Var]*types.Var{} // ok -> asserted value
+			ast.Inspect(f.Decl.Body, func(nd ast.Node) bool {
+				as, ok := nd.(*ast.AssignStmt)
+				if !ok || len(as.Rhs) != 1 || len(as.Lhs) != 2 {
+					return true
+				}
+				switch r := ast.Unparen(as.Rhs[0]).(type) {
+				case *ast.CallExpr:
+					fn, _ := calleeObj(info, r).(*types.Func)
+					if fn == nil || !(fn.Name() == "Has" || fn.Name() == "Exists") {
+						return true
+					}
+					if id, ok := as.Lhs[0].(*ast.Ident); ok {
+						if v, ok := info.ObjectOf(id).(*types.Var); ok {
+							if bt, ok := v.Type().Underlying().(*types.Basic); ok && bt.Kind() == types.Bool {
+								presence[v] = r
+							}
+						}
+					}
+				case *ast.TypeAssertExpr:
+					vid, ok1 := as.Lhs[0].(*ast.Ident)
+					oid, ok2 := as.Lhs[1].(*ast.Ident)
+					if ok1 && ok2 && vid.Name != "_" && oid.Name != "_" {
+						vv, _ := info.ObjectOf(vid).(*types.Var)
+						ov, _ := info.ObjectOf(oid).(*types.Var)
+						if vv != nil && ov != nil {
+							if _, isIface := vv.Type().Underlying().(*types.Interface); isIface {
+								assertOK[ov] = vv
+							}
+						}
+					}
+				}
+				return true
+			})
+			if len(presence) == 0 && len(assertOK) == 0 {
+				continue
+			}
+			polarityOf := func(cond ast.Expr, v *types.Var) int { // +1: cond implies v true, -1: implies v false
+				for _, cj := range conjuncts(cond) {
+					cj = ast.Unparen(cj)
+					if id, ok := cj.(*ast.Ident); ok && info.Uses[id] == v {
+						return +1
+					}
+					if u, ok := cj.(*ast.UnaryExpr); ok && u.Op == token.NOT {
+						if id, ok := ast.Unparen(u.X).(*ast.Ident); ok && info.Uses[id] == v {
+							return -1
+						}
+					}
+				}
+				return 0
+			}
+			ast.Inspect(f.Decl.Body, func(nd ast.Node) bool {
+				ifs, ok := nd.(*ast.IfStmt)
+				if !ok || len(ifs.Body.List) == 0 {
+					return true
+				}
+				ret, isRet := ifs.Body.List[len(ifs.Body.List)-1].(*ast.ReturnStmt)
+				for v := range presence {
+					pol := polarityOf(ifs.Cond, v)
+					if pol == 0 || !isRet || b.classifyReturn(ret) != retFailure {
+						continue
+					}
+					idx := b.errResultIndex()
+					if idx < 0 || idx >= len(ret.Results) {
+						continue
+					}
+					cls := classify(info, ret.Results[idx])
+					if cls == 0 {
+						continue
+					}
+					n++
+					c.check(cls == pol, rule, f.ID+":presence:"+v.Name()+"#"+itoa(n), p.Pos(ifs.Pos()),
+						"the sentinel agrees with the answer of the presence query",
+						f.ID+" returns `"+exprString(ret.Results[idx])+"` where `"+exprString(ifs.Cond)+"` holds: a not-found sentinel for an object that is there (or an already-exists sentinel for one that is not) — existing objects cannot be read, or absent ones are read as if present")
+				}
+				for ov, vv := range assertOK {
+					pol := polarityOf(ifs.Cond, ov)
+					// the asserted value is the zero value where ok is false: it must not be used there
+					var falseRegion ast.Node
+					switch {
+					case pol == -1 && len(conjuncts(ifs.Cond)) == 1:
+						falseRegion = ifs.Body
+					case pol == +1 && len(conjuncts(ifs.Cond)) == 1 && ifs.Else != nil:
+						falseRegion = ifs.Else
+					}
+					if falseRegion != nil {
+						n++
+						derefs := false
+						ast.Inspect(falseRegion, func(m ast.Node) bool {
+							if call, ok := m.(*ast.CallExpr); ok {
+								if sel, ok := ast.Unparen(call.Fun).(*ast.SelectorExpr); ok {
+									if id, ok := ast.Unparen(sel.X).(*ast.Ident); ok && info.Uses[id] == vv {
+										derefs = true
+									}
+								}
+							}
+							return true
+						})
+						c.check(!derefs, rule, f.ID+":assert-zero:"+vv.Name()+"#"+itoa(n), p.Pos(ifs.Pos()),
+							"the asserted value is not used where the assertion failed",
+							f.ID+" uses `"+vv.Name()+"` on the branch where its type assertion failed (`"+exprString(ifs.Cond)+"` false side): the value is a nil interface there — the store that does support the capability is bypassed and the call panics or takes the wrong path")
+					}
+					if pol != +1 || !isRet || b.classifyReturn(ret) != retFailure {
+						continue
+					}
+					if usesObj(info, ifs.Body, vv) {
+						continue
+					}
+					n++
+					c.fail(rule, f.ID+":assert:"+ov.Name()+"#"+itoa(n), p.Pos(ifs.Pos()),
+						f.ID+" fails exactly when the type assertion succeeded (`"+exprString(ifs.Cond)+"`) without using the asserted value, and goes on when it failed: the zero value (a nil interface) is then used")
+				}
+				return true
+			})
+			// instances of well-formed negative tests count too (evidence)
+			for ov := range assertOK {
+				_ = ov
+				n++
+			}
+		}
+	}
+	return n
+}
+
+// checkAccumulatorsFed (generic): a function that returns a local slice built element by element must still feed it:
+// a success return of a slice variable that is created empty (make(T, 0, …) / nil) and is never appended to, indexed
+// into or re-assigned returns an empty result for every input — the listing, the versions of a label, the batch.
+func checkAccumulatorsFed(c *Ctx, rule string, pkgs ...string) int {
+	p := c.P
+	n := 0
+	for _, pk := range pkgs {
+		for _, f := range p.FuncsIn(pk) {
+			if f.Decl.Body == nil {
+				continue
+			}
+			info := f.Info()
+			b := p.BodyOf(f)
+			seen := map[*types.Var]bool{}
+			ast.Inspect(f.Decl.Body, func(nd ast.Node) bool {
+				if _, isLit := nd.(*ast.FuncLit); isLit {
+					return false
+				}
+				ret, ok := nd.(*ast.ReturnStmt)
+				if !ok || b.classifyReturn(ret) == retFailure {
+					return true
+				}
+				for _, r := range ret.Results {
+					id, ok := ast.Unparen(r).(*ast.Ident)
+					if !ok {
+						continue
+					}
+					v, ok := info.Uses[id].(*types.Var)
+					if !ok || seen[v] || paramIndex(f, v) >= 0 {
+						continue
+					}
+					if _, isSlice := v.Type().Underlying().(*types.Slice); !isSlice {
+						continue
+					}
+					defs := defsOfVarWithIndex(f, v)
+					// created empty?
+					createdEmpty := false
+					fed := false
+					for _, d := range defs {
+						if d.rhs == nil {
+							if d.rng == nil {
+								fed = true // op-assign or unknown
+							}
+							continue
+						}
+						if call, ok := ast.Unparen(d.rhs).(*ast.CallExpr); ok {
+							switch calleeID(info, call) {
+							case "builtin.make":
+								if len(call.Args) >= 2 {
+									if tv, ok := info.Types[call.Args[1]]; ok && tv.Value != nil && tv.Value.ExactString() == "0" {
+										createdEmpty = true
+										continue
+									}
+								}
+								fed = true // make with a length: filled by index
+							case "builtin.append":
+								fed = true
+							default:
+								fed = true
+							}
+							continue
+						}
+						fed = true
+					}
+					if !createdEmpty && !fed {
+						// a named result never assigned: starts nil
+						sig := f.Obj.Type().(*types.Signature)
+						for i := 0; i < sig.Results().Len(); i++ {
+							if sig.Results().At(i) == v {
+								createdEmpty = true
+							}
+						}
+					}
+					if !createdEmpty {
+						continue
+					}
+					seen[v] = true
+					// appended through a closure or by index?
+					ast.Inspect(f.Decl.Body, func(m ast.Node) bool {
+						if as, ok := m.(*ast.AssignStmt); ok {
+							for _, l := range as.Lhs {
+								if ix, ok := ast.Unparen(l).(*ast.IndexExpr); ok && isVar(info, ix.X, v) {
+									fed = true
+								}
+							}
+						}
+						if u, ok := m.(*ast.UnaryExpr); ok && u.Op == token.AND && isVar(info, u.X, v) {
+							fed = true // address taken: filled elsewhere
+						}
+						return true
+					})
+					n++
+					c.check(fed, rule, f.ID+":"+v.Name(), p.Pos(ret.Pos()),
+						"the returned slice is fed",
+						f.ID+" returns `"+v.Name()+"`, created empty and never appended to: the function reports success with an empty result whatever it collected")
+				}
 				return true
 			})
 		}
